@@ -911,6 +911,81 @@ def generate_shoot(repo=None):
     return HEADER_SH % " and ".join(srcs) + "\n".join(parts) + "\nEnd GenShoot.\n"
 
 
+# ------------------------------------------------------------------ layout of the parameter input of the system function
+KIND_TAG = {"": "LGlobal", "control": "LControl", "control+": "LControlPlus", "bspline": "LBspline"}
+
+
+def translate_layout(stage_tree, smp_tree):
+    """two cooperating sites: Stage.p / Stage.v define the ORDER OF SYMBOLS of the system function's parameter input
+    vertcat(stage.p, stage.v); SamplingMethod.get_p_sys supplies the VALUES in an order of its own"""
+    def kinds_of(prop, table):
+        fn = _find_method(stage_tree, "Stage", prop)
+        st = [s_ for s_ in fn.body if isinstance(s_, ast.Assign) and ast.unparse(s_.targets[0]) == "arg"]
+        if len(st) != 1:
+            _fail(fn, "Stage.%s" % prop)
+        out = []
+
+        def walk(e):
+            if isinstance(e, ast.BinOp) and isinstance(e.op, ast.Add):
+                walk(e.left); walk(e.right)
+            elif isinstance(e, ast.Subscript) and ast.unparse(e.value) == "self." + table and isinstance(e.slice, ast.Constant) \
+                    and e.slice.value in KIND_TAG:
+                out.append(e.slice.value)
+            else:
+                _fail(e, "Stage.%s: term of the concatenation" % prop)
+        walk(st[0].value)
+        ret = [s_ for s_ in fn.body if isinstance(s_, ast.Return)]
+        if len(ret) != 1 or ast.unparse(ret[0].value) != "MX(0, 1) if len(arg) == 0 else vvcat(arg)":
+            _fail(fn, "Stage.%s: return" % prop)
+        return out
+    sym = [("P", k) for k in kinds_of("p", "parameters")] + [("V", k) for k in kinds_of("v", "variables")]
+    ode = _find_method(stage_tree, "Stage", "_ode")
+    fcall = [n for n in ast.walk(ode) if isinstance(n, ast.Call) and ast.unparse(n.func) == "Function"]
+    if len(fcall) != 1 or [ast.unparse(x) for x in fcall[0].args[1].elts] != ["self.x", "self.u", "self.z", "vertcat(self.p, self.v)", "t"] \
+            or [x.value for x in fcall[0].args[3].elts] != ["x", "u", "z", "p", "t"]:
+        _fail(ode, "Stage._ode: inputs of the system function")
+    # values
+    fn = _find_method(smp_tree, "SamplingMethod", "get_p_sys")
+    st = [s_ for s_ in fn.body if isinstance(s_, ast.Assign) and ast.unparse(s_.targets[0]) == "args"]
+    if len(st) != 1:
+        _fail(fn, "get_p_sys")
+    ATOM = {"rep(vvcat(self.P))": ("P", ""), "rep(self.get_p_control_at(stage, k))": ("P", "control"),
+            "rep(self.get_p_control_plus_at(stage, k))": ("P", "control+"), "signals_at(stage.parameters['bspline'])": ("P", "bspline"),
+            "rep(self.V)": ("V", ""), "rep(self.get_v_control_at(stage, k))": ("V", "control"),
+            "rep(self.get_v_control_plus_at(stage, k))": ("V", "control+"), "signals_at(stage.variables['bspline'])": ("V", "bspline")}
+    val = []
+
+    def walkv(e):
+        if isinstance(e, ast.BinOp) and isinstance(e.op, ast.Add):
+            walkv(e.left); walkv(e.right)
+        elif isinstance(e, ast.List):
+            for x in e.elts:
+                walkv(x)
+        elif ast.unparse(e) in ATOM:
+            val.append(ATOM[ast.unparse(e)])
+        else:
+            _fail(e, "get_p_sys: entry of the value vector")
+    walkv(st[0].value)
+    ret = [s_ for s_ in fn.body if isinstance(s_, ast.Return)]
+    if len(ret) != 1 or ast.unparse(ret[0].value) != "vcat(args)":
+        _fail(fn, "get_p_sys: return")
+    fmt = lambda l: "[" + "; ".join("(%s, %s)" % ("LParam" if a == "P" else "LVar", KIND_TAG[k]) for a, k in l) + "]"
+    return ("Inductive ltable := LParam | LVar.\nInductive lkind := LGlobal | LControl | LControlPlus | LBspline.\n"
+            "(* order of the SYMBOLS in the parameter input of the system function: vertcat(Stage.p, Stage.v) *)\n"
+            "Definition gen_symbol_layout : list (ltable * lkind) := %s.\n"
+            "(* order of the VALUES supplied for interval k by SamplingMethod.get_p_sys *)\n"
+            "Definition gen_value_layout : list (ltable * lkind) := %s.\n" % (fmt(sym), fmt(val)))
+
+
+def generate_layout(repo=None):
+    repo = repo or REPO
+    s1 = open(os.path.join(repo, "rockit", "stage.py")).read()
+    s2 = open(os.path.join(repo, "rockit", "sampling_method.py")).read()
+    body = translate_layout(ast.parse(s1), ast.parse(s2))
+    return ("(* GENERATED on every run by harness/translate.py from rockit/stage.py (sha256 %s) and rockit/sampling_method.py (sha256 %s). *)\n"
+            "From Coq Require Import List.\nImport ListNotations.\n\n" % (hashlib.sha256(s1.encode()).hexdigest()[:16], hashlib.sha256(s2.encode()).hexdigest()[:16])) + body
+
+
 HEADER = """(* GENERATED on every run by harness/translate.py from %s (sha256 %s).
    Do not edit: the file is rewritten from the working tree before Tie/IntgTie.v is checked. *)
 From Coq Require Import ZArith QArith List.
@@ -972,6 +1047,7 @@ TIES = {
     "Dc": (generate_dc, "DcGen.v", "DcTie.v"),
     "Smp": (generate_smp, "SmpGen.v", "SmpTie.v"),
     "Shoot": (generate_shoot, "ShootGen.v", "ShootTie.v"),
+    "Layout": (generate_layout, "LayoutGen.v", "LayoutTie.v"),
 }
 
 
